@@ -88,6 +88,11 @@ def run(ctx):
     for i in range(ctx.budget(300, 6000)):
         if ctx.out_of_time():
             break
+        if i % 10 == 3:
+            case = gen_levels.digit_case(rng)
+            suites.run_resolve_case(ctx, 'mol-hier-digit', case, oracle=oracle)
+            ctx.feature('pairs-told-apart-by-order-digit')
+            continue
         if i % 10 == 7:
             # the expansion operator inside a middle-level fragment definition
             case = gen_levels.mult_case(rng)
